@@ -85,10 +85,7 @@ class CubicSplineSQuad(BaseSQuad):
 class WeightBasedSQuad(BaseSQuad):
     def __init__(self, x, **options):
         # x: (nx,)
-        xshape = x.shape
-        nx = xshape[-1]
-        x = x.reshape(-1, nx)
-        self.w = self.get_weights(x, **options)  # (*, nx, nx)
+        self.w = self.get_weights(x, **options)  # (nx, nx)
 
     @abstractmethod
     def get_weights(self, x, **options):
